@@ -292,6 +292,8 @@ class C08(CleanBase):
         def image(d):
             files, entries = {}, {}
             for f in sorted(os.listdir(d)):
+                if not os.path.isfile(os.path.join(d, f)):
+                    continue          # (a sub-directory is no snapshot file)
                 b = open(os.path.join(d, f), "rb").read()
                 files[f] = b
                 if f.endswith("_test.snap") or f == "custom_name.snap":
